@@ -12,8 +12,9 @@ from vlib import harness
 
 ID = "C03"
 LEVEL = "fault_enumeration"
-TECHNIQUE = "runtime fault injection at every recorded OS access (vanish/zombify/EACCES/EPERM, pairs) with exception-contract monitor"
-RULE = ("one case = (operation, fixture, fault plan); fault plans enumerate every index k of the clean access "
+TECHNIQUE = ("runtime fault injection at every recorded OS access (vanish/zombify/EACCES/EPERM, pairs) with exception-contract monitor; "
+             "on the real kernel too: a real child is killed (reaped / left a zombie) at each access point, first reads included")
+RULE = ("real-kernel part: /proc is routed through the shim unchanged (redirect + read hooks), so the same plan indices exist; at index k a real child (threads, file, socket, grandchild; or single-threaded) is SIGKILLed and reaped, or left unreaped. one case = (operation, fixture, fault plan); fault plans enumerate every index k of the clean access "
         "trace of that operation: vanish-from-k, zombify-from-k, deny-at-k (EACCES, EPERM), on a live and on a "
         "zombie fixture, vanish of a relative (child/parent) for tree walkers, and all pairs deny-at-i + "
         "vanish-from-j>i; after every vanish all operations are called again on the same object. "
@@ -449,6 +450,136 @@ def run_shimdiff(acc):
         child.wait()
 
 
+# ---- real kernel: a real child is killed (and reaped, or left a zombie) at each access point of the call ------------
+
+REAL_CHILD = ("import os, socket, sys, threading, time\n"
+              "f = open(sys.argv[1], 'a'); s = socket.socket(); s.bind(('127.0.0.1', 0)); s.listen(1)\n"
+              "for _ in range(2): threading.Thread(target=time.sleep, args=(1000,), daemon=True).start()\n"
+              "import subprocess\n"
+              "k = subprocess.Popen([sys.executable, '-S', '-c', 'import time; time.sleep(1000)'])\n"
+              "print('ready', flush=True); time.sleep(1000)\n")
+REAL_CHILD_SINGLE = "import time\nprint('ready', flush=True); time.sleep(1000)\n"
+REAL_SKIP = {"process_iter_attrs", "send_signal", "suspend", "resume", "terminate", "kill", "wait0", "cpu_percent"}
+
+
+def run_real_op(opname, k, action, do_post=False, single=False):
+    """-> (out, pid, n_accesses). k None = clean run (counts the accesses)."""
+    import os
+    import subprocess
+    import sys
+    env = setup()
+    ps, vkernel = env["ps"], env["vkernel"]
+    tmpf = os.path.join(env["fixtures"].FX_DIR, "realfault.txt")
+    os.makedirs(env["fixtures"].FX_DIR, exist_ok=True)
+    envp = {kk: v for kk, v in os.environ.items() if kk != "LD_PRELOAD"}
+    child = subprocess.Popen([sys.executable, "-S", "-c", REAL_CHILD_SINGLE if single else REAL_CHILD, tmpf], stdout=subprocess.PIPE, env=envp)
+    fired = []
+    out = dict(fired=fired, breaches=[])
+    vk = vkernel.VK()
+    vk.redirect("/proc", "/proc")
+    vk.hook_reads = True
+    old = ps.PROCFS_PATH
+    ps.PROCFS_PATH = "/proc"
+    grand = None
+    try:
+        child.stdout.readline()
+        pid = child.pid
+        try:
+            grand = [int(x) for x in open(f"/proc/{pid}/task/{pid}/children").read().split()]
+        except OSError:
+            grand = []
+        with vk:
+            pr = ps.Process(pid)
+            base = len(vk.log)
+            if k is not None:
+                def act(vk_, kind, path):
+                    fired.append((k, action, kind, path))
+                    os.kill(pid, 9)
+                    if action == "vanish":
+                        child.wait()
+                    else:
+                        import time
+                        for _ in range(200):            # until the kernel shows it as a zombie
+                            try:
+                                with vkernel.real_open(f"/proc/{pid}/stat", "rb") as f:
+                                    if f.read().rsplit(b")", 1)[1].split()[0] == b"Z":
+                                        break
+                            except OSError:
+                                break
+                            time.sleep(0.002)
+                    return None
+                vk.plan[base + k] = act
+            try:
+                out["outcome"] = ("value", env["ops"][opname](pr))
+            except ps.ZombieProcess as e:
+                out["outcome"] = ("ZombieProcess", e.pid)
+            except ps.NoSuchProcess as e:
+                out["outcome"] = ("NoSuchProcess", e.pid)
+                out["msg"] = str(e.msg)
+            except ps.AccessDenied as e:
+                out["outcome"] = ("AccessDenied", e.pid)
+            except ps.TimeoutExpired as e:
+                out["outcome"] = ("TimeoutExpired", e.pid)
+            except BaseException as e:  # noqa: BLE001
+                out["outcome"] = ("leak", f"{type(e).__name__}: {e}")
+            n = len(vk.log) - base
+            out["trace"] = list(vk.log[base:])
+            vk.plan.clear()
+            if do_post and fired and action == "vanish":
+                post = []
+                for name, fn in env["ops"].items():
+                    if fn is None or name in REAL_SKIP or name == "oneshot_multi":
+                        continue
+                    n0 = len(vk.log)
+                    try:
+                        res = ("value", fn(pr))
+                    except ps.ZombieProcess as e:
+                        res = ("ZombieProcess", e.pid)
+                    except ps.NoSuchProcess as e:
+                        res = ("NoSuchProcess", e.pid)
+                    except ps.AccessDenied as e:
+                        res = ("AccessDenied", e.pid)
+                    except BaseException as e:  # noqa: BLE001
+                        res = ("leak", f"{type(e).__name__}: {e}")
+                    post.append((name, res, len(vk.log) - n0))
+                out["post"] = post
+    finally:
+        ps.PROCFS_PATH = old
+        for p_ in [child.pid] + (grand or []):
+            try:
+                os.kill(p_, 9)
+            except OSError:
+                pass
+        child.wait()
+        child.stdout.close()
+    return out, pid, n
+
+
+def run_realfault(shard, acc):
+    todo = [(o, False) for o in shard["ops"]] + [(o, True) for o in shard["ops"] if o in ("threads", "num_threads", "as_dict_some")]
+    for opname, single in todo:
+        out0, pid, n = run_real_op(opname, None, None, single=single)
+        acc.count("real_kernel_access_points", n)
+        acc.extra.setdefault("real_access_points_per_op", {})[opname] = n
+        v0 = judge(opname, "live", [], out0, pid, None, acc)
+        acc.case(dict(op=opname, fixture="real", plan=[]), False, v0)
+        ks = list(range(n)) if n <= shard.get("maxk", 16) else sorted(set(list(range(8)) + list(range(n - 6, n)) +
+                                                                        list(range(8, n - 6, max(1, (n - 14) // 6)))))
+        for action in ("vanish", "zombify"):
+            for k in ks:
+                out, pid, _n = run_real_op(opname, k, action, do_post=(action == "vanish"), single=single)
+                if out["fired"]:
+                    acc.count("faults_fired")
+                    acc.count("real_kernel_faults_fired")
+                    acc.count("fault_real_" + action)
+                pl = [(k, action)]
+                viols = judge(opname, "live", pl, out, pid, None, acc)
+                viols = [(m, "REAL KERNEL " + d) for m, d in viols]
+                case = dict(op=opname, fixture="real", plan=[[k, action]], single=single)
+                acc.case(case, bool(out["fired"]), viols, sample=dict(case, outcome=str(out["outcome"])[:160],
+                                                                      fired=[list(f) for f in out["fired"]]))
+
+
 def plan(tier, seed):
     names = [n for n, _ in ops_names()]
     shards = [dict(kind="shimdiff")]
@@ -456,6 +587,10 @@ def plan(tier, seed):
         step = 4 if fixture != "kthread" else 8
         for chunk in range(0, len(names), step):
             shards.append(dict(kind="enum", fixture=fixture, ops=names[chunk:chunk + step], tier=tier))
+    real = [n for n in names if n not in REAL_SKIP]
+    step = 5 if tier == "quick" else 3
+    for chunk in range(0, len(real), step):
+        shards.append(dict(kind="realfault", ops=real[chunk:chunk + step], maxk=10 if tier == "quick" else 60))
     return shards
 
 
@@ -469,7 +604,9 @@ def ops_names():
 def run_shard(shard):
     acc = harness.Acc(max_samples=2)
     setup()
-    if shard["kind"] == "enum":
+    if shard["kind"] == "realfault":
+        run_realfault(shard, acc)
+    elif shard["kind"] == "enum":
         for opname in shard["ops"]:
             fixture = shard["fixture"]
             plans, clean, n = cases_for(opname, fixture, shard.get("tier", "quick"))
@@ -499,6 +636,16 @@ def run_shard(shard):
         for case in shard["cases"]:
             if case.get("kind") == "shimdiff":
                 run_shimdiff(acc)
+                continue
+            if case.get("fixture") == "real":
+                pl = [tuple(x) for x in case["plan"]]
+                if pl:
+                    out, pid, _n = run_real_op(case["op"], pl[0][0], pl[0][1], do_post=(pl[0][1] == "vanish"), single=case.get("single", False))
+                else:
+                    out, pid, _n = run_real_op(case["op"], None, None, single=case.get("single", False))
+                viols = judge(case["op"], "live", pl, out, pid, None, acc)
+                acc.case(case, True, viols)
+                print("REPLAY", case, "->", out["outcome"], "fired", out["fired"])
                 continue
             pl = [tuple(x) for x in case["plan"]]
             out0, pid = run_op(case["op"], case["fixture"], [])
